@@ -37,12 +37,40 @@ def _exc_sig(e):
     return f'{type(e).__name__}@{where}'
 
 
+_NESTED = {}
+
+
+def _nested_packets():
+    """Two small packets built by the library (compared with what the same calls give outside any nesting)."""
+    d = bytes(make_data([T.enc_tlv(8, b'nested'), T.enc_tlv(8, b'data')], MetaInfo(content_type=1, freshness_period=5), b'inner', None))
+    i = bytes(make_interest([T.enc_tlv(8, b'nested'), T.enc_tlv(8, b'interest')], InterestParam(nonce=9, lifetime=77), b'in', None))
+    return d, i
+
+
+def _make_reentrant(signer, log):
+    """The signer builds other packets while it is asked about this one (an audit record, a key request, ...): a legal Signer."""
+    if signer is None:
+        return
+    for meth in ('write_signature_info', 'get_signature_value_size'):
+        orig = getattr(signer, meth)
+
+        def wrapped(*a, _orig=orig, **k):
+            log.append(_nested_packets())
+            return _orig(*a, **k)
+        setattr(signer, meth, wrapped)
+
+
 def build(case):
     """Run the library encoder on a case. -> (wire bytes, payload, signer, final_name or None)"""
     exp = P.Expected(case)
     payload = P.payload_bytes(case['payload'], exp.overhead)
     is_int = case['kind'] == 'interest'
     signer = K.make_signer(case['signer'], for_interest=is_int)
+    if case.get('nested'):
+        if 'ref' not in _NESTED:
+            _NESTED['ref'] = _nested_packets()
+        _NESTED['log'] = []
+        _make_reentrant(signer, _NESTED['log'])
     name_arg = P.name_in_rep(case['name'], case['name_rep'])
     if is_int:
         _dsig.timestamp = lambda: case['sig_time']
@@ -94,6 +122,11 @@ def run_case(case):
         exp, wire, payload, signer, final_name = build(case)
     except Exception as e:
         return r.bad(f'C01/encode-exception/{kind}/{_exc_sig(e)}', f'{e!r}')
+    if case.get('nested') and signer is not None:
+        if not _NESTED['log']:
+            return r.bad('C01/harness/reentrant-signer-not-called', '')
+        if any(p != _NESTED['ref'] for p in _NESTED['log']):
+            return r.bad(f'C01/nested-packet-differs/{kind}', 'a packet built by the signer while the outer packet was being encoded')
     # the caller's own objects are inputs, not scratch space: build a second packet from the SAME name object
     if case.get('reuse') and case['signer']['kind'] not in ('ecdsa',) and case['name_rep'] % 10 not in (8, 9):
         try:
